@@ -89,6 +89,17 @@ func Send[T any](ch chan<- T, v T) {
 	ch <- v // cannot block: buffer has room (or closed: panics like Go)
 }
 
+// effect records what a channel operation did, for the explorer's happens-before cache:
+// consuming or sending a value changes the channel ("w:chan"), observing a closed or empty
+// channel only reads it ("r:chan"; reads commute with each other).
+func (x *Exec) effect(key uintptr, write bool) {
+	name := "r:chan"
+	if write {
+		name = "w:chan"
+	}
+	x.trace = append(x.trace, Step{x.cur.id, name, x.objID(key), false})
+}
+
 func (x *Exec) afterRecv(key uintptr, ok bool) {
 	if x.race == nil {
 		return
@@ -131,8 +142,9 @@ func recv2[T any](ch <-chan T) (T, bool) {
 	if ch != nil {
 		key = chanKey(ch)
 	}
-	x.point(&pendingOp{name: "recv", obj: x.objID(key), enabled: func() bool { return recvEnabled(ch) }, nopre: x.nopreFor(3)})
+	x.point(&pendingOp{name: "recv", obj: 0, enabled: func() bool { return recvEnabled(ch) }, nopre: x.nopreFor(3)})
 	v, ok := <-ch
+	x.effect(key, ok)
 	x.afterRecv(key, ok)
 	return v, ok
 }
@@ -202,6 +214,7 @@ func (c *RCase[T]) fire(x *Exec) {
 	x.afterRecv(c.k, c.Ok)
 }
 func (c *RCase[T]) key() uintptr { return c.k }
+func (c *RCase[T]) wrote() bool   { return c.Ok }
 
 // SCase is a send clause.
 type SCase[T any] struct {
@@ -232,6 +245,7 @@ func (c *SCase[T]) fire(x *Exec) {
 	c.ch <- c.v
 }
 func (c *SCase[T]) key() uintptr { return c.k }
+func (c *SCase[T]) wrote() bool   { return true }
 
 // Select is the instrumented select statement. It returns the index of the clause that
 // fired, or -1 for default. Inactive mode falls back to reflect.Select.
@@ -249,11 +263,7 @@ func Select(hasDefault bool, cases ...SelCase) int {
 			checkBuffered(cp, isNil)
 		}
 	}
-	obj := 0
-	if len(cases) > 0 {
-		obj = x.objID(cases[0].key())
-	}
-	x.point(&pendingOp{name: "select", obj: obj, enabled: func() bool {
+	x.point(&pendingOp{name: "select", obj: 0, enabled: func() bool {
 		if hasDefault {
 			return true
 		}
@@ -270,6 +280,9 @@ func Select(hasDefault bool, cases ...SelCase) int {
 			ready = append(ready, i)
 		}
 	}
+	for _, c := range cases {
+		x.effect(c.key(), false) // the outcome depends on the state of every channel of the select
+	}
 	if len(ready) == 0 {
 		return -1
 	}
@@ -282,6 +295,9 @@ func Select(hasDefault bool, cases ...SelCase) int {
 	}
 	i := ready[pick]
 	cases[i].fire(x)
+	if w, ok := cases[i].(interface{ wrote() bool }); ok && w.wrote() {
+		x.effect(cases[i].key(), true)
+	}
 	return i
 }
 
